@@ -1637,6 +1637,18 @@ class Stream(AbstractStream):
             self._imol.data = other._imol.data
         if phase and self._imol.data.ndim == 1:
             self._imol._phase = other._imol._phase
+        self._reattach_phase_views()
+            
+    def _reattach_phase_views(self):
+        # Phase views handed out earlier keep following this stream's data
+        imol = self._imol
+        if not hasattr(self, '_streams') or imol.data.ndim != 2: return
+        for phase, stream in self._streams.items():
+            indexer = stream._imol
+            indexer.data = imol.data.rows[imol.get_phase_index(phase)]
+            indexer._data_cache.clear()
+            stream._thermal_condition = self._thermal_condition
+            stream.reset_cache()
             
     def unlink(self):
         """
@@ -1675,6 +1687,7 @@ class Stream(AbstractStream):
         self._imol = imol.copy() # The indexer itself may be shared with a proxy
         self._thermal_condition = self._thermal_condition.copy()
         self.reset_cache()
+        self._reattach_phase_views()
         
     def copy_like(self, other):
         """
